@@ -119,7 +119,10 @@ class PartyFailure(Exception):
     pass
 
 
-def run_all(loop, rts, prog, max_steps=2_000_000):
+BLOCKED = 'BLOCKED'
+
+
+def run_all(loop, rts, prog, max_steps=2_000_000, allow_blocked=False):
     """run prog(rt) for all parties; returns list of results.  Steps the loop manually: detects deadlock
     (no ready handle while some party unfinished) and captures exceptions inside any coroutine."""
     tasks = []
@@ -140,6 +143,11 @@ def run_all(loop, rts, prog, max_steps=2_000_000):
             break
         if not loop._ready and not loop._scheduled:
             pend = [i for i, t in enumerate(tasks) if not t.done()]
+            if allow_blocked:
+                out = [BLOCKED if not t.done() else (t.result() if t.exception() is None else ('EXC', repr(t.exception()))) for t in tasks]
+                for t in tasks: t.cancel()
+                _drain(loop)
+                return out
             for t in tasks: t.cancel()
             _drain(loop)
             raise PartyFailure(f'deadlock: parties {pend} wait for messages that are never sent')
@@ -147,6 +155,11 @@ def run_all(loop, rts, prog, max_steps=2_000_000):
         steps += 1
         if steps > max_steps:
             raise PartyFailure('step budget exhausted')
+    if errors and allow_blocked:
+        out = [BLOCKED if not t.done() else (t.result() if t.exception() is None else ('EXC', repr(t.exception()))) for t in tasks]
+        for t in tasks: t.cancel()
+        _drain(loop)
+        return out
     if errors:
         for t in tasks: t.cancel()
         _drain(loop)
